@@ -563,6 +563,9 @@ func crossLevelCycles(m *model.Schema) []string {
 			if f.Type.Base() == t.Name {
 				out = append(out, fmt.Sprintf("{ %s { ...A } } fragment A on %s { __typename %s { ...A } }", e, t.Name, f.Name))
 				out = append(out, fmt.Sprintf("{ %s { ...A } } fragment A on %s { %s { ...B } } fragment B on %s { %s { ...A __typename } }", e, t.Name, f.Name, t.Name, f.Name))
+				// the cycle passes through the SECOND of two same-key selections
+				out = append(out, fmt.Sprintf("{ %s { ...A } } fragment A on %s { %s { __typename } %s { ...A } }", e, t.Name, f.Name, f.Name))
+				out = append(out, fmt.Sprintf("{ %s { ...A } } fragment A on %s { s: %s { __typename } ... on %s { s: %s { __typename ...A } } }", e, t.Name, f.Name, t.Name, f.Name))
 			}
 			u := m.Type(f.Type.Base())
 			if u == nil || u.Kind != model.Object || u.Name == t.Name {
@@ -575,8 +578,8 @@ func crossLevelCycles(m *model.Schema) []string {
 			}
 		}
 	}
-	if len(out) > 6 {
-		out = out[:6]
+	if len(out) > 10 {
+		out = out[:10]
 	}
 	return out
 }
